@@ -250,7 +250,10 @@ def analyse(ctx, want_prefix: str):
                     merge_seen += check_paths(ob2, st, sib, paths, r)
     except (Budget, _Unmodelled) as e:
         ob(want_prefix + ".0", f"{Q}: interpretation of the scan body stopped", core.UNDECIDED, core.loc(COMPACT, st.inner), f"{type(e).__name__}: {e}")
-    ctx.floor("resolutions whose scan body was analysed", len(sibs), 25)
+    ctx.floors.append(("resolutions whose scan body was analysed", len(sibs), 25))
+    if len(sibs) < 25:
+        ob(want_prefix + ".0", f"{Q}: scan body analysed for only {len(sibs)} resolutions", core.UNDECIDED, core.loc(COMPACT, st.inner),
+           "the sibling model (summarised cell_to_children family) is not available for the others; nothing is claimed for them")
     ctx.analysed["sibling_model"] = {str(r): {"k": s.k, "stride": f"1<<{s.stride.bit_length() - 1}", "note": s.note} for r, s in sorted(sibs.items())}
     ctx.analysed["merge_paths"] = merge_seen
 
